@@ -25,6 +25,10 @@ type c16cfg struct {
 	importSub bool   // the imported file lives in a sub-directory
 	tasks     []string
 	pipelines []string
+	// pipelines whose trace is not determined by the configuration: a stage that may fail is not ordered
+	// with respect to some other stage, so what the others have written when the run is cancelled depends
+	// on the schedule. Only the exit status of such a run is compared.
+	racy map[string]bool
 }
 
 func strOrList(r *h.Rand, items ...string) interface{} {
@@ -165,25 +169,46 @@ func genC16(r *h.Rand) c16cfg {
 	}
 	pipes := gen.OM{}
 	np := r.Intn(3)
+	cfg.racy = map[string]bool{}
+	mayFailTask := map[string]bool{}
+	for _, kv := range tasks {
+		t := kv.V.(gen.OM)
+		cv, _ := t.Get("command")
+		mayFailTask[kv.K] = strings.Contains(fmt.Sprint(cv), "exit 3")
+	}
+	mayFailPipe := map[string]bool{}
 	for i := 0; i < np; i++ {
 		pname := fmt.Sprintf("p%d", i)
 		cfg.pipelines = append(cfg.pipelines, pname)
 		var stages []interface{}
 		var names []string
 		ns := r.Range(1, 4)
+		anc := map[string]map[string]bool{} // stage -> every stage it is (transitively) after
+		mayFail := map[string]bool{}
 		for k := 0; k < ns; k++ {
 			s := gen.OM{}
 			sname := fmt.Sprintf("s%d", k)
 			s.Set("name", sname)
 			if i > 0 && k == 0 && r.Chance(40) {
 				s.Set("pipeline", "p0")
+				mayFail[sname] = mayFailPipe["p0"]
+				if cfg.racy["p0"] {
+					cfg.racy[pname] = true
+				}
 			} else {
-				s.Set("task", cfg.tasks[r.Intn(len(cfg.tasks))])
+				tn := cfg.tasks[r.Intn(len(cfg.tasks))]
+				s.Set("task", tn)
+				mayFail[sname] = mayFailTask[tn]
 			}
 			var deps []string
+			anc[sname] = map[string]bool{}
 			for _, p := range names {
 				if r.Chance(50) {
 					deps = append(deps, p)
+					anc[sname][p] = true
+					for a := range anc[p] {
+						anc[sname][a] = true
+					}
 				}
 			}
 			if len(deps) > 0 {
@@ -206,6 +231,17 @@ func genC16(r *h.Rand) c16cfg {
 			}
 			names = append(names, sname)
 			stages = append(stages, s)
+		}
+		for _, a := range names {
+			if !mayFail[a] {
+				continue
+			}
+			mayFailPipe[pname] = true
+			for _, b := range names {
+				if a != b && !anc[a][b] && !anc[b][a] {
+					cfg.racy[pname] = true
+				}
+			}
 		}
 		pipes.Set(pname, stages)
 	}
@@ -326,7 +362,6 @@ func emitterRoundTrip(tree gen.OM, ys, js, ts string) string {
 	return ""
 }
 
-
 func showArgs(cfg c16cfg) [][]string {
 	var r [][]string
 	for _, t := range cfg.tasks {
@@ -399,6 +434,47 @@ func c16(c *h.Ctx) {
 		}
 		c.Count("emitter_roundtrips_ok", 1)
 		results := map[string]map[string]string{} // ext -> observation name -> value
+		type obsSpec struct {
+			sorted bool
+			args   []string
+		}
+		specs := map[string]obsSpec{}
+		files := map[string]string{}
+		nrun := 0
+		// observe runs one command against the file of one format and reduces what it did to a comparable string
+		observe := func(ext, name string) (string, string) {
+			d := real + "/" + ext[1:]
+			sp := specs[name]
+			nrun++
+			trace := fmt.Sprintf("%s/trace.%d", d, nrun)
+			res := tc{Dir: d, Env: []string{"TRACE=" + trace}, Timeout: 40 * time.Second}.run(c, append([]string{"-c", d + "/cfg" + ext}, sp.args...)...)
+			c.Eval(1)
+			if crashed, how := res.Crashed(); crashed {
+				c.Violate("cli-crash/"+h.TopFrame(string(res.Stderr)), "taskctl died ("+ext+"): "+how, map[string]interface{}{"file": files[ext], "argv": sp.args, "stderr": tail(string(res.Stderr), 2000)})
+			}
+			o := strings.ReplaceAll(stripANSI(string(res.Stdout)), d, "<DIR>")
+			toks := lines(h.ReadFile(trace))
+			if sp.sorted {
+				sort.Strings(toks)
+			}
+			switch {
+			case strings.HasPrefix(name, "graph"):
+				o = strings.Join(setKeys(parseDot(o)), ",")
+			case strings.HasPrefix(name, "run"):
+				o = "" // decorated output carries durations; the trace is the observation
+			case name == "list-tasks":
+				ls := lines(o)
+				sort.Strings(ls)
+				o = strings.Join(ls, "\n")
+			}
+			if strings.HasPrefix(name, "run-pipeline:") && cfg.racy[strings.TrimPrefix(name, "run-pipeline:")] {
+				// a stage that may fail runs beside another one: what the others wrote before the cancellation
+				// is a matter of schedule, not of the configuration
+				c.Count("schedule_dependent_pipeline_runs", 1)
+				return fmt.Sprintf("exit=%d timedout=%v\n%s\ntrace=(not determined)", res.Exit, res.TimedOut, o), stripANSI(string(res.Stderr))
+			}
+			return fmt.Sprintf("exit=%d timedout=%v\n%s\ntrace=%v", res.Exit, res.TimedOut, o, toks), stripANSI(string(res.Stderr))
+		}
 		for _, ext := range []string{".yaml", ".json", ".toml"} {
 			d := real + "/" + ext[1:]
 			os.MkdirAll(d+"/sub", 0o755)
@@ -413,32 +489,12 @@ func c16(c *h.Ctx) {
 				tree.Set("import", []interface{}{imp})
 				h.WriteFile(d+"/"+imp, mk(ext, cfg.imported))
 			}
-			f := d + "/cfg" + ext
-			h.WriteFile(f, mk(ext, tree))
+			files[ext] = mk(ext, tree)
+			h.WriteFile(d+"/cfg"+ext, files[ext])
 			obs := map[string]string{}
 			run := func(name string, sorted bool, args ...string) {
-				trace := fmt.Sprintf("%s/trace.%d", d, len(obs))
-				res := tc{Dir: d, Env: []string{"TRACE=" + trace}, Timeout: 40 * time.Second}.run(c, append([]string{"-c", f}, args...)...)
-				c.Eval(1)
-				if crashed, how := res.Crashed(); crashed {
-					c.Violate("cli-crash/"+h.TopFrame(string(res.Stderr)), "taskctl died ("+ext+"): "+how, map[string]interface{}{"file": mk(ext, tree), "argv": args, "stderr": tail(string(res.Stderr), 2000)})
-				}
-				o := strings.ReplaceAll(stripANSI(string(res.Stdout)), d, "<DIR>")
-				toks := lines(h.ReadFile(trace))
-				if sorted {
-					sort.Strings(toks)
-				}
-				switch {
-				case strings.HasPrefix(name, "graph"):
-					o = strings.Join(setKeys(parseDot(o)), ",")
-				case strings.HasPrefix(name, "run"):
-					o = "" // decorated output carries durations; the trace is the observation
-				case name == "list-tasks":
-					ls := lines(o)
-					sort.Strings(ls)
-					o = strings.Join(ls, "\n")
-				}
-				obs[name] = fmt.Sprintf("exit=%d timedout=%v\n%s\ntrace=%v", res.Exit, res.TimedOut, o, toks)
+				specs[name] = obsSpec{sorted, args}
+				obs[name], _ = observe(ext, name)
 			}
 			run("list", false, "list")
 			run("list-tasks", false, "list", "tasks")
@@ -493,12 +549,35 @@ func c16(c *h.Ctx) {
 			for _, k := range names {
 				c.Count("observations_compared", 1)
 				if results[other][k] != base[k] {
+					// what a file decodes to does not vary from run to run: a difference that is one is seen again
+					// when both commands are repeated. A difference that does not come back (a loaded machine, a
+					// schedule) is not attributed to the format.
+					confirmed := true
+					var again []string
+					for rep := 0; rep < 2 && confirmed; rep++ {
+						a, ea := observe(".yaml", k)
+						b, eb := observe(other, k)
+						again = append(again, fmt.Sprintf("repeat %d\n--- yaml\n%s\nstderr: %s\n--- %s\n%s\nstderr: %s", rep+1, clip(a, 600), clip(ea, 300), other[1:], clip(b, 600), clip(eb, 300)))
+						if a == b {
+							confirmed = false
+						}
+					}
+					if !confirmed {
+						c.Count("differences_not_seen_again", 1)
+						c.Inconclusive(fmt.Sprintf("case %d: %s differed once between YAML and %s and agreed when repeated (not counted as a format difference):\n--- yaml\n%s\n--- %s\n%s\n%s", i, k, other[1:], clip(base[k], 600), other[1:], clip(results[other][k], 600), strings.Join(again, "\n")))
+						continue
+					}
 					kind := k
 					if j := strings.IndexByte(k, ':'); j > 0 {
 						kind = k[:j]
 					}
-					c.Violate("format-difference/"+kind+"/yaml-vs-"+other[1:], fmt.Sprintf("%s differs between YAML and %s:\n--- yaml\n%s\n--- %s\n%s", k, other[1:], clip(base[k], 1500), other[1:], clip(results[other][k], 1500)),
-						map[string]interface{}{"yaml": mk(".yaml", cfg.tree), other[1:]: mk(other, cfg.tree), "observation": k})
+					c.Violate("format-difference/"+kind+"/yaml-vs-"+other[1:], fmt.Sprintf("%s differs between YAML and %s (and again on two repetitions):\n--- yaml\n%s\n--- %s\n%s\n%s", k, other[1:], clip(base[k], 1500), other[1:], clip(results[other][k], 1500), strings.Join(again, "\n")),
+						map[string]interface{}{"yaml": files[".yaml"], other[1:]: files[other], "imported": func() string {
+							if cfg.imported == nil {
+								return ""
+							}
+							return mk(other, cfg.imported)
+						}(), "observation": k, "case_index": i})
 				}
 			}
 		}
